@@ -373,6 +373,10 @@ def plan(tier, seed):
     b = harness.split("PARAM", 96 if q else 1500, 4 if q else 6)
     b += harness.split("MANUAL", 40 if q else 600, 10 if q else 50)
     b += harness.split("SUBPROC", 8 if q else 60, 4 if q else 10)
+    # the generator writes its file with the locale's encoding: part of the parameter sets run under the C locale (ASCII)
+    for i, bb in enumerate(b):
+        if i % 6 == 4:
+            bb["env"] = {"LC_ALL": "C", "LANG": "C", "PYTHONUTF8": "0", "PYTHONCOERCECLOCALE": "0", "VERIF_ALT_SCRATCH": "1"}
     b += harness.split("EDGE", 4 * len(EDGE_VALUES), 10)
     b += harness.split("SLOWP", 1 if q else 6, 1)
     return b
